@@ -232,6 +232,14 @@ def run_check(prop: str, tier: str, seed: int) -> int:
             run_units(ctx, units)
             if hasattr(mod, "oracles"):
                 mod.oracles(ctx)
+        if proved and ctx.thorough and os.environ.get("VERIF_COQCHK", "1") != "0":
+            with core.build_lock():
+                ck = core.coqchk(ctx.prop)
+            ctx.extra["coqchk"] = {k: v for k, v in ck.items() if k != "tail"}
+            if not ck["ok"]:
+                proved = False
+                ctx.extra["broken_obligations"] = [{"file": f"Properties/{ctx.prop}.vo", "line": 0, "stmt": "coqchk",
+                                                    "msg": "coqchk does not accept the compiled cone, or it rests on axioms: " + str(ck.get("axioms")) + " " + ck["tail"][-200:]}]
         if not proved:
             found = None
             if hasattr(mod, "search"):
